@@ -513,6 +513,16 @@ var c05Contexts = []c05Ctx{
 	{"collector-map", "KCollMap", "numbers(40).map(z->slow(z)).map(y->if y<20 then 0 else let m=mark(0); let t=%F; 0).sum()", true, true},
 	{"collector-reduce", "KCollReduce", "numbers(40).map(z->slow(z)).reduce((p,q)->if q<20 then 0 else let m=mark(0); let t=%F; 0)", true, true},
 	{"try-collector-reduce", "KTryCollReduce", "try numbers(40).map(z->slow(z)).reduce((p,q)->if q<20 then 0 else let m=mark(0); let t=%F; 0) catch 4242", true, true},
+	// list sizes at the boundary of MapAuto's decision (it measures items 1..11 and decides when it fetches the 13th): the
+	// fault sits in the LAST item of a list of known size 12, 13 and 14 - with 13 items exactly one item is handed to a
+	// worker and delivered by the collector (seeded/C05-h: a fast path for lists "too short to go parallel" tested size <= 13)
+	{"par-map-size12", "KParMap", "numbers(12).map(z->if slow(z)<11 then 0 else let m=mark(0); let t=%F; 0).sum()", true, true},
+	{"par-map-size13", "KParMap", "numbers(13).map(z->if slow(z)<12 then 0 else let m=mark(0); let t=%F; 0).sum()", true, true},
+	{"par-map-size14", "KParMap", "numbers(14).map(z->if slow(z)<13 then 0 else let m=mark(0); let t=%F; 0).sum()", true, true},
+	{"par-accept-size13", "KParAccept", "numbers(13).accept(z->if slow(z)<12 then true else let m=mark(0); let t=%F; true).size()", true, true},
+	{"try-par-map-size13", "KTryParMap", "try numbers(13).map(z->if slow(z)<12 then 0 else let m=mark(0); let t=%F; 0).sum() catch 4242", true, true},
+	{"collector-reduce-size13", "KCollReduce", "numbers(13).map(z->slow(z)).reduce((p,q)->if q<12 then 0 else let m=mark(0); let t=%F; 0)", true, true},
+	{"collector-reduce-size14", "KCollReduce", "numbers(14).map(z->slow(z)).reduce((p,q)->if q<13 then 0 else let m=mark(0); let t=%F; 0)", true, true},
 	{"merge-left", "KMergeLeft", "[1,2,3].combine((p,q)->let m=mark(0); let t=%F; p).merge([1,2],(p,q)->p<q).size()", false, true},
 	{"merge-right", "KMergeRight", "[1,2].merge([1,2,3].combine((p,q)->let m=mark(0); let t=%F; p),(p,q)->p<q).size()", false, true},
 	{"merge-left-map", "KMergeLeftMap", "[1,2,3].map(z->let m=mark(0); let t=%F; z).merge([1,2],(p,q)->p<q).size()", false, true},
